@@ -772,3 +772,7 @@ mod tests {
             .quickcheck(property as fn(DivergingPair) -> bool);
     }
 }
+
+#[cfg(kani)]
+#[path = "/verif/units/kani/bit_ops.rs"]
+mod verif_kani;
